@@ -12,7 +12,7 @@ package link_solicit_controller
 // ---- C30 / C31: matching a solicited stream against the local solicitations ----
 // bcast guards the solicitation set and the link table; every registered solicitation has a directive.
 //@ guards Controller.bcast: solicitations, links
-//@ lockinv Controller.bcast: forall ss *solicitState :: ss in self.solicitations ==> ss != nil && ss.dir != nil && ss.handler != nil
+//@ lockinv Controller.bcast: forall ss *solicitState trigger dom(self.solicitations, ss) :: ss in self.solicitations ==> ss != nil && ss.dir != nil && ss.handler != nil
 
 // A local solicitation matches a stream with hash hb on link ls exactly when its peer and
 // transport constraints admit the link and the hash of (session, protocol ID, context) equals hb.
@@ -21,7 +21,9 @@ package link_solicit_controller
 
 // the closure that scans the solicitation set under the lock
 //@ func (*Controller).resolveMatch$1
-//@   loop 1 invariant forall k int :: 0 <= k && k < len(matches) ==> matches[k] != nil && solicitAdmits(matches[k], ls) && solicitHashEq(matches[k], ls, hashBytes)
+//@   loop 1 invariant forall k int trigger matches[k] :: 0 <= k && k < len(matches) ==> matches[k] != nil
+//@   loop 1 invariant forall k int trigger matches[k] :: 0 <= k && k < len(matches) ==> solicitAdmits(matches[k], ls)
+//@   loop 1 invariant forall k int trigger matches[k] :: 0 <= k && k < len(matches) ==> solicitHashEq(matches[k], ls, hashBytes)
 
 // One wrapper per stream: the SolicitMountedStream value is created once per call (outside the
 // emission loop), so every matching solicitation receives the same value and its single
